@@ -10,7 +10,7 @@ from mon import gen
 METRICS = ["cityblock", "chebyshev", "euclidean", "sqeuclidean"]
 
 
-def gen_simulation(rs, n_rows=(24, 60), force_nn_pair=None, absent_arm=False):
+def gen_simulation(rs, n_rows=(24, 60), force_nn_pair=None, absent_arm=False, force_empty=False):
     n_arms = int(rs.integers(2, 5))
     labels = gen.pick(rs, ["int", "str", "negint"])  # float labels: sklearn's confusion_matrix rejects them ("continuous")
     arms = list(gen.LABELS[labels][:n_arms])
@@ -22,6 +22,11 @@ def gen_simulation(rs, n_rows=(24, 60), force_nn_pair=None, absent_arm=False):
     if nn_pair:
         k1, k2 = gen.pick(rs, ["radius", "knn"]), gen.pick(rs, ["radius", "knn"])
         combos += [(gen.pick(rs, gen.LP_KINDS), k1), (gen.pick(rs, gen.LP_KINDS), k2)]
+    forced = None
+    if force_empty:
+        # a Radius / LSHNearest bandit that is certain to meet empty neighbourhoods and carries its own distribution for them
+        forced = (gen.pick(rs, gen.LP_KINDS), gen.pick(rs, ["lsh", "radius"]))
+        combos.append(forced)
     while len(combos) < n_bandits:
         combos.append(gen.ALL_COMBOS[int(rs.integers(48))])
     order = rs.permutation(len(combos))
@@ -29,11 +34,14 @@ def gen_simulation(rs, n_rows=(24, 60), force_nn_pair=None, absent_arm=False):
     cfgs = []
     used_metrics = []
     for l, p in combos:
-        c = gen.gen_cfg(rs, l, p, labels=labels, n_arms=n_arms, with_probs=bool(rs.integers(2)))
-        if p == "lsh" and rs.integers(2):
+        is_forced = forced is not None and (l, p) == forced
+        c = gen.gen_cfg(rs, l, p, labels=labels, n_arms=n_arms, with_probs=bool(rs.integers(2)) or is_forced)
+        if p == "lsh" and (rs.integers(2) or is_forced):
             c["np"]["n_dimensions"] = int(gen.pick(rs, [5, 6, 7]))  # many buckets: empty neighbourhoods among the test rows
-        if p == "radius" and rs.integers(3) == 0:
-            c["np"]["radius"] = 1.0  # small radius: empty neighbourhoods among the test rows
+            if is_forced:
+                c["np"]["n_tables"] = 1
+        if p == "radius" and (rs.integers(3) == 0 or is_forced):
+            c["np"]["radius"] = 0.5 if is_forced else 1.0  # small radius: empty neighbourhoods among the test rows
         if p in ("radius", "knn"):
             # different metrics for the neighbourhood bandits of one simulation (they share a distance cache)
             choices = ([m for m in METRICS if m not in used_metrics] or METRICS) if rs.integers(2) else (used_metrics or METRICS)
